@@ -200,7 +200,11 @@ def indent(text, first, rest):
     return "\n".join(out)
 
 
-def print_blocks(bs, tight=False):
+COMPACT = True
+COMPACT_PAIRS = {("quote", "list"), ("quote", "hr"), ("quote", "fenced")}
+
+
+def print_blocks(bs, tight=False, in_item=False):
     parts = []
     for b in bs:
         t = b[0]
@@ -213,7 +217,10 @@ def print_blocks(bs, tight=False):
         elif t == "indented":
             parts.append("\n".join("    " + l for l in b[1].rstrip("\n").split("\n")))
         elif t == "hr":
-            parts.append("***")
+            # every spelling of a thematic break; the hyphen and underscore forms only after a blank line (a hyphen line below a
+            # paragraph is a setext underline) and never as the first block of a container (after a bullet it would join the marker)
+            styles = ["***", "---", "___", "* * *", "- - -", "-----", "_ _ _", "**  **"]
+            parts.append(styles[(len(parts) * 3 + len(bs) + len(parts[-1])) % len(styles)] if (parts and not tight) else "***")
         elif t == "htmlblock":
             parts.append(b[1])
         elif t == "quote":
@@ -225,10 +232,24 @@ def print_blocks(bs, tight=False):
             for i, it in enumerate(items):
                 marker = ("%d%s" % (start + i, mark)) if ordered else mark
                 pad = marker + " "
-                body = print_blocks(it, ltight)
+                body = print_blocks(it, ltight, True)
                 lines.append(indent(body, pad, " " * len(pad)))
             parts.append(("\n" if ltight else "\n\n").join(lines))
-    return ("\n" if tight else "\n\n").join(parts)
+    if tight:
+        return "\n".join(parts)
+    # blocks are separated by a blank line; where CommonMark lets the next block interrupt the previous one, every third such
+    # pair is written without the blank line: a list, a thematic break or a fenced block directly below a quote (not inside list
+    # items, where a missing blank line would also change the looseness of the list)
+    out = ""
+    for i, part in enumerate(parts):
+        if i:
+            a, b = bs[i - 1][0], bs[i][0]
+            close = COMPACT and not in_item and (a, b) in COMPACT_PAIRS and (len(parts[i - 1]) + len(part)) % 3 == 0 and not part.startswith(("---", "- - -", "-----"))
+            if close and a == "list" and (bs[i - 1][3] is False or part.startswith(" ")):
+                close = False        # (below a loose list the block would belong to the last item)
+            out += "\n" if close else "\n\n"
+        out += part
+    return out
 
 
 def print_doc(bs):
